@@ -1,6 +1,6 @@
-(* C16: each recorded class contains a query that the faithful model answers wrongly (the same
-   queries are the witnesses of known_findings.d/C16.json and are run on the real Database by
-   every check). *)
+(* C16: (a) each class that is still open contains a query that the faithful model answers wrongly
+   (the witnesses of known_findings.d/C16.json, run on the real Database by every check);
+   (b) the witnesses of the classes repaired in /repo are now answered as the reference demands. *)
 From Coq Require Import ZArith List Bool.
 From TV Require Import Model.SqlSpecAgg Model.AggImpl Model.AggClass Model.AggJoin.
 Import ListNotations.
@@ -9,69 +9,67 @@ Open Scope Z_scope.
 (* the model returns rows that are not the rows the reference demands *)
 Definition wrong_rows (q : aquery) (t : table) : Prop :=
   exists ms rs, model_query q t = MRows ms /\ spec_query q t = SRows rs /\ bag_equiv rs ms = false.
+(* the model returns exactly the rows the reference demands *)
+Definition right_rows (q : aquery) (t : table) (rs : list row) : Prop :=
+  model_query q t = MRows rs /\ spec_query q t = SRows rs.
 
+(* ------------------------------------------------------------------ repaired *)
 Definition t_count : table := [[VInt 1; VInt 1]; [VInt 2; VNull]].
 Definition q_count := mkQ None [] [mkAgg FCount (ECol 1)] [0%nat] None.
-(* COUNT(c1) counts the NULL: 2 instead of 1 *)
-Lemma count_null_refuted_l : q_class q_count t_count = 1 /\ wrong_rows q_count t_count /\ model_query q_count t_count = MRows [[VInt 2]].
-Proof. split; [reflexivity|split; [|reflexivity]]. exists [[VInt 2]], [[VInt 1]]. repeat split; vm_compute; reflexivity. Qed.
-
 Definition t_sum : table := [[VInt 1; VNull]].
 Definition q_sum := mkQ None [] [mkAgg FSum (ECol 1)] [0%nat] None.
-(* SUM over NULLs only: 0 instead of NULL; the same over an empty table *)
-Lemma sum_empty_refuted_l : q_class q_sum t_sum = 2 /\ wrong_rows q_sum t_sum /\ model_query q_sum t_sum = MRows [[VInt 0]] /\
-                            q_class q_sum [] = 2 /\ wrong_rows q_sum [].
-Proof.
-  split; [reflexivity|split; [|split; [reflexivity|split; [reflexivity|]]]].
-  - exists [[VInt 0]], [[VNull]]. repeat split; vm_compute; reflexivity.
-  - exists [[VInt 0]], [[VNull]]. repeat split; vm_compute; reflexivity.
-Qed.
-
 Definition t_ovf : table := [[VInt 1; VInt 9223372036854775807]; [VInt 2; VInt 1]].
-(* SUM beyond i64: `attempt to add with overflow` where an error is demanded *)
-Lemma sum_overflow_panics_l : q_class q_sum t_ovf = 3 /\ model_query q_sum t_ovf = MPanic /\ spec_query q_sum t_ovf = SError.
-Proof. repeat split; vm_compute; reflexivity. Qed.
-
 Definition t_text : table := [[VInt 1; VText [97]]; [VInt 2; VText [98]]].
 Definition q_min := mkQ None [] [mkAgg FMin (ECol 1)] [0%nat] None.
-(* MIN over text: NULL instead of 'a' *)
-Lemma text_min_refuted_l : q_class q_min t_text = 4 /\ wrong_rows q_min t_text /\ model_query q_min t_text = MRows [[VNull]].
-Proof. split; [reflexivity|split; [|reflexivity]]. exists [[VNull]], [[VText [97]]]. repeat split; vm_compute; reflexivity. Qed.
-
 Definition t_two : table := [[VInt 1; VInt 10]; [VInt 2; VInt 20]].
 Definition q_arg := mkQ None [] [mkAgg FSum (EArith AAdd (ECol 1) (ELit (VInt 1)))] [0%nat] None.
-(* SUM(c1 + 1) sums column 0: 3 instead of 32 *)
-Lemma arg_expr_refuted_l : q_class q_arg t_two = 5 /\ wrong_rows q_arg t_two /\ model_query q_arg t_two = MRows [[VInt 3]].
-Proof. split; [reflexivity|split; [|reflexivity]]. exists [[VInt 3]], [[VInt 32]]. repeat split; vm_compute; reflexivity. Qed.
-
 Definition q_key := mkQ None [EArith AAdd (ECol 1) (ELit (VInt 1))] [mkAgg FCountStar (ECol 0)] [0%nat; 1%nat] None.
-(* GROUP BY c1 + 1 shows the key as NULL *)
-Lemma key_expr_refuted_l : q_class q_key t_two = 6 /\ wrong_rows q_key t_two.
-Proof. split; [reflexivity|]. exists [[VNull; VInt 1]; [VNull; VInt 1]], [[VInt 11; VInt 1]; [VInt 21; VInt 1]]. repeat split; vm_compute; reflexivity. Qed.
-
 Definition t_nk : table := [[VInt 1; VNull; VInt 5]; [VInt 2; VInt 5; VNull]].
 Definition q_nk := mkQ None [EArith AAdd (ECol 1) (ELit (VInt 0)); EArith AAdd (ECol 2) (ELit (VInt 0))]
                        [mkAgg FCountStar (ECol 0)] [2%nat] None.
-(* ... and NULL key expressions vanish from the group key: (NULL, 5) and (5, NULL) become one group *)
-Lemma key_null_merge_refuted_l : q_class q_nk t_nk = 6 /\ wrong_rows q_nk t_nk /\ model_query q_nk t_nk = MRows [[VInt 2]].
-Proof. split; [reflexivity|split; [|reflexivity]]. exists [[VInt 2]], [[VInt 1]; [VInt 1]]. repeat split; vm_compute; reflexivity. Qed.
-
 Definition t_hav : table := [[VInt 1; VInt 1]; [VInt 2; VInt 1]; [VInt 3; VInt 2]].
 Definition q_hav := mkQ None [ECol 1] [mkAgg FCountStar (ECol 0)] [0%nat] (Some (ECmp CGt (ECol 1) (ELit (VInt 1)))).
-(* HAVING COUNT( * ) > 1 without COUNT( * ) in the select list keeps no group *)
-Lemma having_agg_refuted_l : q_class q_hav t_hav = 7 /\ wrong_rows q_hav t_hav /\ model_query q_hav t_hav = MRows [].
-Proof. split; [reflexivity|split; [|reflexivity]]. exists [], [[VInt 1]]. repeat split; vm_compute; reflexivity. Qed.
+
+(* COUNT(c1) skips the NULL; SUM over NULLs only / over nothing is NULL; SUM beyond i64 is an error;
+   MIN over text; SUM(c1 + 1); GROUP BY c1 + 1 shows the key and keeps (NULL, 5) and (5, NULL) apart;
+   HAVING COUNT( * ) > 1 without COUNT( * ) in the select list *)
+Lemma former_classes_repaired_l :
+  right_rows q_count t_count [[VInt 1]] /\
+  right_rows q_sum t_sum [[VNull]] /\ right_rows q_sum [] [[VNull]] /\
+  (model_query q_sum t_ovf = MErr /\ spec_query q_sum t_ovf = SError) /\
+  right_rows q_min t_text [[VText [97]]] /\
+  right_rows q_arg t_two [[VInt 32]] /\
+  right_rows q_key t_two [[VInt 11; VInt 1]; [VInt 21; VInt 1]] /\
+  right_rows q_nk t_nk [[VInt 1]; [VInt 1]] /\
+  right_rows q_hav t_hav [[VInt 1]] /\
+  q_class q_count t_count = 0 /\ q_class q_sum t_sum = 0 /\ q_class q_min t_text = 0 /\
+  q_class q_arg t_two = 0 /\ q_class q_key t_two = 0 /\ q_class q_hav t_hav = 0.
+Proof. unfold right_rows. repeat split; vm_compute; reflexivity. Qed.
+
+(* ------------------------------------------------------------------ still open *)
+Definition t_name : table := [[VInt 1; VNull]; [VInt 2; VNull]; [VInt 3; VInt 5]].
+Definition q_name := mkQ None [] [mkAgg FCount (EArith AAdd (ECol 1) (ELit (VInt 0))); mkAgg FCountStar (ECol 0)]
+                         [0%nat; 1%nat] (Some (ECmp CGt (ECol 0) (ELit (VInt 1)))).
+(* HAVING COUNT(c1 + 0) > 1 reads the slot named `count`, which is COUNT( * ) = 3: the group is kept *)
+Lemma agg_name_refuted_l : q_class q_name t_name = 9 /\ wrong_rows q_name t_name /\ model_query q_name t_name = MRows [[VInt 1; VInt 3]].
+Proof. split; [reflexivity|split; [|reflexivity]]. exists [[VInt 1; VInt 3]], []. repeat split; vm_compute; reflexivity. Qed.
+
+Definition q_hkey := mkQ None [EArith AAdd (ECol 1) (ELit (VInt 1))] [mkAgg FCountStar (ECol 0)] [0%nat; 1%nat]
+                         (Some (ECmp CGt (ECol 0) (ELit (VInt 1)))).
+(* GROUP BY c1 + 1 HAVING c1 + 1 > 1 keeps no group *)
+Lemma having_key_refuted_l : q_class q_hkey t_two = 10 /\ wrong_rows q_hkey t_two /\ model_query q_hkey t_two = MRows [].
+Proof. split; [reflexivity|split; [|reflexivity]]. exists [], [[VInt 11; VInt 1]; [VInt 21; VInt 1]]. repeat split; vm_compute; reflexivity. Qed.
 
 (* ------------------------------------------------------------------ the hand-written path for aggregates over a join *)
 Definition jl : table := [[VInt 1; VInt 1]; [VInt 2; VInt 1]].
 Definition jr : table := [[VInt 1; VInt 1; VInt 10]].
 Definition q_join := mkQ None [ECol 1] [mkAgg FCountStar (ECol 0)] [0%nat; 1%nat] None.
 (* SELECT t.c1, COUNT( * ) FROM t JOIN u ON t.c1 = u.c1 GROUP BY t.c1: one group (1, 2) is demanded;
-   the hand-written path groups the PROJECTED rows by their second entry (the NULL that stands in for
-   COUNT( * )) and returns (NULL, 2) *)
+   the hand-written path groups the PROJECTED rows by their second entry (t.id, which stands in for
+   COUNT( * )) and returns (1, 1), (2, 1) *)
 Lemma join_agg_refuted_l :
   spec_join_query jl jr 1 1 q_join = SRows [[VInt 1; VInt 2]] /\
-  model_join_query jl jr 1 1 q_join = MRows [[VNull; VInt 2]].
+  model_join_query jl jr 1 1 q_join = MRows [[VInt 1; VInt 1]; [VInt 2; VInt 1]].
 Proof. split; vm_compute; reflexivity. Qed.
 (* ... and without any joined row it returns no row where COUNT( * ) = 0 is demanded *)
 Lemma join_agg_empty_refuted_l :
